@@ -177,12 +177,16 @@ def text_roundtrip(run, fgd: Any, custom: bool, label: bool, as_bytes: bool, eng
                    only: Optional[set] = None) -> Tuple[Optional[str], bool]:
     """Export, re-parse, compare every entity with the model, export again.  Returns (text, ok)."""
     before = G.snap_fgd(fgd)
+    level_before = G.fgd_level(fgd)
     try:
         text = fgd.export(custom_syntax=custom, label_spawnflags=label)
         run.count('exports')
     except Exception as exc:
         run.violation(f'export raised {type(exc).__name__}: {exc}', case=case, engine=engine, key='export-raises')
         return None, False
+    # export() completes the visgroup tree in place (it adds the groups that are only named as parents, 'Auto' included),
+    # so the reference for the FGD-level sections is the object as it stands after the export
+    level_before = G.fgd_level(fgd)
     after = G.snap_fgd(fgd)
     if after != before:
         d = G.first_diff(before, after)
@@ -203,10 +207,25 @@ def text_roundtrip(run, fgd: Any, custom: bool, label: bool, as_bytes: bool, eng
                       witness={'text_excerpt': near, 'error': err[:500]}, case=case, engine=engine, key=key)
         return text, False
     got = G.snap_fgd(parsed)
+    # -------- the sections in front of the entities (@mapsize, @MaterialExclusion, @AutoVisgroup)
+    if only is None:
+        level_after = G.fgd_level(parsed)
+        if level_before['map_size'][0] == level_before['map_size'][1]:
+            level_after['map_size'] = level_before['map_size']  # export() documents writing @mapsize only for a real range
+        if any(level_before[k] for k in ('mat_exclusions', 'tagged_mat_exclusions', 'auto_visgroups')) or level_before['map_size'] != level_after['map_size']:
+            run.count('fgd_level_sections_compared')
+        dl = G.first_diff(level_before, level_after)
+        if dl is not None:
+            ok = False
+            run.violation(f'FGD-level section{dl[0]}: expected {_clip(dl[1])!r}, parsed back {_clip(dl[2])!r}',
+                          witness={'path': dl[0], 'expected': _clip(dl[1], 500), 'got': _clip(dl[2], 500), 'text_excerpt': text[:700]},
+                          case=case, engine=engine, key='fgd-level-section-mismatch')
     # -------- field by field
     n_cmp = 0
     excused: Dict[str, int] = {}
     for key_cf, snap in before.items():
+        if not ok:
+            break
         if only is not None and key_cf not in only:
             continue
         want = G.model_text(snap, custom)
@@ -700,7 +719,7 @@ def main(run, shard=(0, 1)) -> None:
         if cnt:
             run.count('reach:' + label_, cnt)
     run.require(*['reach:' + label_ for label_ in probe.counts])
-    run.require('exports', 'parses', 'entities_compared', 'second_exports', 'serialise_calls', 'unserialise_calls',
+    run.require('exports', 'parses', 'fgd_level_sections_compared', 'entities_compared', 'second_exports', 'serialise_calls', 'unserialise_calls',
                 'lazy_queries', 'dbase_roundtrips', 'binary_dbase_roundtrips', 'long_strings', 'empty_display_names',
                 'tagged_duplicate_keys', 'aliases', 'texts_with_plus_split', 'binary_entities_compared')
 
